@@ -2,7 +2,7 @@
 # Applies a seeded change to /repo, runs the given checks (quick), reverts. Usage: run_seeded.sh <patch.diff> <ID> [ID...]
 # Prints per check: CAUGHT (exit 1 + VIOLATION) / MISSED (exit 0) / ERROR (other).
 set -u
-PATCH="$1"; shift
+PATCH="$(readlink -f "$1")"; shift
 cd /verif
 if ! git -C /repo diff --quiet; then echo "/repo is dirty"; exit 2; fi
 if ! git -C /repo apply --check "$PATCH" 2>/dev/null; then echo "patch does not apply: $PATCH"; exit 2; fi
